@@ -729,3 +729,26 @@ package plenccodec
 //@ func plenccodec.StringCodec.WithInterning
 //@   safety C19
 //@   ensures[C19] result != nil
+
+// the encoding of an interned string field is the plain string encoding (promoted methods)
+
+//@ func plenccodec.*InternedStringCodec.Omit
+//@   safety C19
+//@   assigns nothing
+//@   ensures[C19,C02] result == (len(loadstr(ptr)) == 0)
+
+//@ func plenccodec.*InternedStringCodec.Size
+//@   safety C19
+//@   assigns nothing
+//@   ensures[C19,C05] len(tag) == 0 ==> result == len(loadstr(ptr))
+//@   ensures[C19,C05] len(tag) > 0 ==> result == len(tag) + vlen(uint64(len(loadstr(ptr)))) + len(loadstr(ptr))
+
+//@ func plenccodec.*InternedStringCodec.Append
+//@   safety C19 C11
+//@   assigns nothing
+//@   appends[C19,C02,C05] data ite(len(tag) != 0, bytes(tag) ++ venc(uint64(len(loadstr(ptr)))) ++ bytes(loadstr(ptr)), bytes(loadstr(ptr)))
+
+//@ func plenccodec.*InternedStringCodec.WireType
+//@   safety C19
+//@   assigns nothing
+//@   ensures[C19,C02] result == 2
